@@ -62,6 +62,10 @@ class Ctx:
         self.notes = {}
         self.work = random.Random(H(self.seed, 'work'))
 
+    def obs(self, *payload):
+        """Record an observation of the oracle in the event log / trace digest."""
+        self.sim.log('obs', *payload)
+
     def probe(self, name, n=1):
         self.probes[name] = self.probes.get(name, 0) + n
 
@@ -143,6 +147,8 @@ def execute_plan(check, plan, keep_log=False):
     except Exception as e:
         res['harness_error'] = 'exception in harness: %s\n%s' % (e, traceback.format_exc())
     sim = ctx.sim
+    for v in ctx.violations:
+        sim.log('violation', v['sig'])
     if sim.verdict is not None and sim.verdict[0] == 'harness' and not res['harness_error']:
         res['harness_error'] = str(sim.verdict[1])
     res.update({
